@@ -42,6 +42,9 @@ type Tmpl struct {
 	Fields []string
 }
 
+// ReplayEnd is the panic value that ends a native replay when the recorded path is exhausted.
+type ReplayEnd struct{}
+
 type nondetVal struct {
 	Name string `json:"name"`
 	Kind string `json:"kind"`
@@ -98,8 +101,8 @@ func next(name, kind string) nondetVal {
 	defer mu.Unlock()
 	load()
 	if pos >= len(rf.Nondets) {
-		Invalid = append(Invalid, fmt.Sprintf("replay exhausted at %s", name))
-		return nondetVal{Name: name, Kind: kind}
+		// the engine's path ended here (it stops at the first violated obligation)
+		panic(ReplayEnd{})
 	}
 	v := rf.Nondets[pos]
 	pos++
